@@ -121,6 +121,12 @@ check("C09", "model_checking",
       "Trusted: the observation function; fork() gives each history a pristine copy of the library's process-global state.",
       "DESIGN.md §3 C09")
 
+check("C03", "exploration",
+      EXH + "a generator that emits the wikitext together with the expected structure (attributes, row/cell/argument counts and kinds; contents compared with the content parsed standalone)",
+      "Tables for every rows x columns in 1..3 (thorough 4), both separator styles, 4 caption forms, attribute maps on table/row/cell, 3 header patterns and all affine content assignments over 8 contents, the full content product for 2x2 grids, every paired/void allowed HTML tag x 4 attribute maps x 2 quote styles x 6 contents, and template / parser-function / parameter / link / external-link calls over every argument list of length <= 3 over 9 atoms.",
+      "Trusted: the generator and the standalone-parse differential for contents; special-purpose tags (pre, nowiki, math, ...) excluded.",
+      "DESIGN.md §3 C03")
+
 NOT_APPLICABLE = {}
 for i in range(1, 21):
     pid = "C%02d" % i
